@@ -69,6 +69,10 @@ type Disk struct {
 
 	Plan []PlannedFault
 
+	// Slack is the spare capacity (bytes) of the slices that reads return;
+	// negative: the capacity os.ReadFile gives, max(512, size+1) (the default of NewDisk).
+	Slack int
+
 	Log      []FSEvent
 	Calls    int
 	MaxCalls int // > 0: cap; exceeding it panics with BudgetExceeded
@@ -91,7 +95,7 @@ var FS *Disk
 
 // NewDisk makes an empty disk with the given working directory.
 func NewDisk(cwd string) *Disk {
-	return &Disk{Files: map[string][]byte{}, Dirs: map[string]bool{"/": true}, Cwd: filepath.Clean(cwd),
+	return &Disk{Files: map[string][]byte{}, Dirs: map[string]bool{"/": true}, Cwd: filepath.Clean(cwd), Slack: -1,
 		lastStatOK: map[string]bool{}, lastRead: map[string]string{}}
 }
 
@@ -313,53 +317,79 @@ func (d *Disk) content(op, errOp, name string) ([]byte, error) {
 	}
 	out := append([]byte(nil), c...)
 	if has {
-		switch f.Kind {
-		case FTorn:
-			if n := len(out); n > 0 {
-				out = out[:clamp(f.P1, 0, n-1)]
-				fault = FTorn
-			}
-		case FZeroTail:
-			if n := len(out); n > 0 {
-				for i := clamp(f.P1, 0, n-1); i < n; i++ {
-					out[i] = 0
-				}
-				fault = FZeroTail
-			}
-		case FFlip:
-			if n := len(out); n > 0 {
-				i := clamp(f.P1, 0, n-1)
-				b := byte(f.P2)
-				if b == out[i] {
-					b ^= 0x20
-				}
-				out[i] = b
-				fault = FFlip
-			}
-		case FSwap:
-			ff := d.SortedFiles()
-			if len(ff) > 1 {
-				q := ff[clamp(f.P1, 0, len(ff)-1)]
-				if q == p {
-					q = ff[(clamp(f.P1, 0, len(ff)-1)+1)%len(ff)]
-				}
-				out = append([]byte(nil), d.Files[q]...)
-				fault = FSwap
-			}
-		case FEmpty:
-			out = out[:0]
-			fault = FEmpty
-		case FDup:
-			out = append(out, c...)
-			fault = FDup
-		}
+		out, fault = d.applyContentFault(out, c, p, f)
 	}
 	if prev, ok := d.lastRead[p]; ok && prev != string(out) {
 		d.RereadChanged++
 	}
 	d.lastRead[p] = string(out)
 	d.log(op, name, nil, len(out), fault)
-	return out, nil
+	// The capacity of what a read returns is a knob: exactly the length (an over-read by
+	// reslicing then panics instead of silently seeing spare bytes) or with Slack spare bytes.
+	capa := len(out) + d.Slack
+	if d.Slack < 0 {
+		// what os.ReadFile of this toolchain allocates: max(512, size+1)
+		capa = len(out) + 1
+		if capa < 512 {
+			capa = 512
+		}
+	}
+	tight := make([]byte, len(out), capa)
+	copy(tight, out)
+	return tight, nil
+}
+
+// ApplyContentFault applies a content fault (torn, zero-tail, flip, empty, dup) to
+// bytes that do not come from the disk (the root content handed to NewJApiFromFile).
+func ApplyContentFault(c []byte, f PlannedFault) []byte {
+	d := NewDisk("/")
+	out, _ := d.applyContentFault(append([]byte(nil), c...), c, "", f)
+	return out
+}
+
+func (d *Disk) applyContentFault(out, c []byte, p string, f PlannedFault) ([]byte, int) {
+	fault := FNone
+	switch f.Kind {
+	case FTorn:
+		if n := len(out); n > 0 {
+			out = out[:clamp(f.P1, 0, n-1)]
+			fault = FTorn
+		}
+	case FZeroTail:
+		if n := len(out); n > 0 {
+			for i := clamp(f.P1, 0, n-1); i < n; i++ {
+				out[i] = 0
+			}
+			fault = FZeroTail
+		}
+	case FFlip:
+		if n := len(out); n > 0 {
+			i := clamp(f.P1, 0, n-1)
+			b := byte(f.P2)
+			if b == out[i] {
+				b ^= 0x20
+			}
+			out[i] = b
+			fault = FFlip
+		}
+	case FSwap:
+		ff := d.SortedFiles()
+		if len(ff) > 1 {
+			q := ff[clamp(f.P1, 0, len(ff)-1)]
+			if q == p {
+				q = ff[(clamp(f.P1, 0, len(ff)-1)+1)%len(ff)]
+			}
+			out = append([]byte(nil), d.Files[q]...)
+			fault = FSwap
+		}
+	case FEmpty:
+		out = out[:0]
+		fault = FEmpty
+	case FDup:
+		out = append(out, c...)
+		fault = FDup
+	}
+	return out, fault
 }
 
 func clamp(v, lo, hi int) int {
